@@ -2,7 +2,7 @@
 //! nothing written, or part-way with exactly the reported ids written) or to park forever
 //! right after the inner write (a crash inside a request).
 
-use std::sync::atomic::{AtomicBool, Ordering};
+use std::sync::atomic::{AtomicBool, AtomicU64, Ordering};
 use std::sync::Arc;
 
 use datacake_crdt::{HLCTimestamp, Key};
@@ -29,15 +29,24 @@ pub struct FaultyStore {
     pub calls: Mutex<Vec<String>>,
     /// while set, every mutating call fails with nothing written
     pub fail_all: Arc<AtomicBool>,
+    /// while non-zero, every mutating call first waits this many milliseconds (a replica that answers late)
+    pub delay_ms: Arc<AtomicU64>,
 }
 
 impl FaultyStore {
     pub fn on(inner: Arc<MemStore>) -> Self {
-        Self { inner, plan: Mutex::new(Plan::Ok), parked: Notify::new(), calls: Mutex::new(vec![]), fail_all: Arc::new(AtomicBool::new(false)) }
+        Self { inner, plan: Mutex::new(Plan::Ok), parked: Notify::new(), calls: Mutex::new(vec![]), fail_all: Arc::new(AtomicBool::new(false)), delay_ms: Arc::new(AtomicU64::new(0)) }
     }
 
     pub fn set_plan(&self, p: Plan) {
         *self.plan.lock() = p;
+    }
+
+    async fn maybe_delay(&self) {
+        let ms = self.delay_ms.load(Ordering::SeqCst);
+        if ms > 0 {
+            tokio::time::sleep(std::time::Duration::from_millis(ms)).await;
+        }
     }
 
     fn take_plan(&self) -> Plan {
@@ -88,6 +97,7 @@ impl Storage for FaultyStore {
     ) -> Result<(), BulkMutationError<Self::Error>> {
         let keys: Vec<Key> = keys.collect();
         self.calls.lock().push(format!("remove_tombstones {keys:?}"));
+        self.maybe_delay().await;
         match self.take_plan() {
             Plan::Ok => self.inner.remove_tombstones(keyspace, keys.into_iter()).await,
             Plan::Fail(ok) => {
@@ -105,6 +115,7 @@ impl Storage for FaultyStore {
 
     async fn put(&self, keyspace: &str, document: Document) -> Result<(), Self::Error> {
         self.calls.lock().push(format!("put {}", document.id()));
+        self.maybe_delay().await;
         match self.take_plan() {
             Plan::Ok => self.inner.put(keyspace, document).await,
             Plan::Fail(_) => Err(injected()),
@@ -123,6 +134,7 @@ impl Storage for FaultyStore {
     ) -> Result<(), BulkMutationError<Self::Error>> {
         let docs: Vec<Document> = documents.collect();
         self.calls.lock().push(format!("multi_put {:?}", docs.iter().map(|d| d.id()).collect::<Vec<_>>()));
+        self.maybe_delay().await;
         match self.take_plan() {
             Plan::Ok => self.inner.multi_put(keyspace, docs.into_iter()).await,
             Plan::Fail(ok) => {
@@ -142,6 +154,7 @@ impl Storage for FaultyStore {
 
     async fn mark_as_tombstone(&self, keyspace: &str, doc_id: Key, timestamp: HLCTimestamp) -> Result<(), Self::Error> {
         self.calls.lock().push(format!("mark_as_tombstone {doc_id}"));
+        self.maybe_delay().await;
         match self.take_plan() {
             Plan::Ok => self.inner.mark_as_tombstone(keyspace, doc_id, timestamp).await,
             Plan::Fail(_) => Err(injected()),
@@ -160,6 +173,7 @@ impl Storage for FaultyStore {
     ) -> Result<(), BulkMutationError<Self::Error>> {
         let docs: Vec<DocumentMetadata> = documents.collect();
         self.calls.lock().push(format!("mark_many_as_tombstone {:?}", docs.iter().map(|d| d.id).collect::<Vec<_>>()));
+        self.maybe_delay().await;
         match self.take_plan() {
             Plan::Ok => self.inner.mark_many_as_tombstone(keyspace, docs.into_iter()).await,
             Plan::Fail(ok) => {
